@@ -175,6 +175,7 @@ theorem admits_round : ∀ (τ : Ty) (j v : PV), wf τ = true → isJson j = tru
     | floatBool b => exact .floatConv _
   | .str, j, v, _, _, h => by cases h; exact .str _
   | .bool, j, v, _, _, h => by cases h; exact .bool _
+  | .never, j, v, _, _, h => by cases h
   | .listAny, j, v, _, hj, h => by
     cases h; rw [toDict_of_isJson _ hj]; exact .listAny _
   | .tupleAny, j, v, _, hj, h => by
